@@ -11,10 +11,19 @@
 (* order in which distinct predicates must be probed (first appearance:    *)
 (* an archetype's own attributes, then its components, archetype by        *)
 (* archetype), which the cfg macro chain has to follow.                    *)
+(*                                                                         *)
+(* Alternatives: with sameA the second archetype carries the NAME of the   *)
+(* first one, with sameC1 / sameC2 the second component of archetype 1 / 2 *)
+(* carries the name of its first component ("the same item under another   *)
+(* predicate").  Since a disabled item behaves as if it had not been       *)
+(* written, such a declaration is an ordinary one under every assignment   *)
+(* that enables at most one of the two; assignments enabling both are not  *)
+(* declarations (rustc rejects the duplicate definition) and are skipped.  *)
 (***************************************************************************)
 EXTENDS Ids, TLC, Json
 
-CONSTANTS Preds, ArchIds, CompIds, PredSets
+CONSTANTS Preds, ArchIds, CompIds, PredSets,
+          SameChoices   \* subset of BOOLEAN: may a later item reuse the NAME of an earlier one?
 
 Comp == [id : CompIds, preds : PredSets]
 FirstComp == Comp
@@ -23,7 +32,7 @@ Arch == [id : ArchIds, preds : PredSets, c1 : FirstComp, c2 : SecondComp]
 Asgs == [Preds -> BOOLEAN]
 
 VARIABLE inp
-Init == inp \in [a1 : Arch, a2 : Arch, asg : Asgs]
+Init == inp \in [a1 : Arch, a2 : Arch, asg : Asgs, sameA : SameChoices, sameC1 : SameChoices, sameC2 : SameChoices]
 Next == UNCHANGED inp
 Spec == Init /\ [][Next]_inp
 
@@ -35,6 +44,12 @@ CompsOf(a) == Reduce(<<a.c1, a.c2>>, inp.asg)
 CompRes(a) == Assign(CompsOf(a))
 \* an archetype whose components are all disabled is not a declaration (no Storage0): skipped by the driver
 Degenerate == \E k \in DOMAIN EnArchIdx : CompsOf(Archs[EnArchIdx[k]]) = <<>>
+
+\* two enabled items of one scope with the same name: not a declaration
+NameClash ==
+    \/ inp.sameA /\ Enabled(inp.a1, inp.asg) /\ Enabled(inp.a2, inp.asg)
+    \/ inp.sameC1 /\ Enabled(inp.a1, inp.asg) /\ Enabled(inp.a1.c1, inp.asg) /\ Enabled(inp.a1.c2, inp.asg)
+    \/ inp.sameC2 /\ Enabled(inp.a2, inp.asg) /\ Enabled(inp.a2.c1, inp.asg) /\ Enabled(inp.a2.c2, inp.asg)
 
 \* the first error in declaration order: archetype id, then that archetype's components
 RECURSIVE FirstErr(_)
@@ -63,7 +78,8 @@ Export ==
                      c1 |-> [id |-> a.c1.id, preds |-> flag(a.c1.preds)], c2 |-> [id |-> a.c2.id, preds |-> flag(a.c2.preds)]]
     IN PrintT(<<"WDECL", ToJson([a1 |-> archJ(inp.a1), a2 |-> archJ(inp.a2),
                  asg |-> [p \in 1..Cardinality(Preds) |-> inp.asg[p]],
-                 order |-> PredOrder, degenerate |-> Degenerate, ok |-> err = "", err |-> err,
+                 order |-> PredOrder, degenerate |-> Degenerate, clash |-> NameClash,
+                 sameA |-> inp.sameA, sameC1 |-> inp.sameC1, sameC2 |-> inp.sameC2, ok |-> err = "", err |-> err,
                  archs |-> IF err = "" THEN [k \in DOMAIN EnArchIdx |->
                               [which |-> EnArchIdx[k], id |-> ArchRes.ids[k],
                                comps |-> LET a == Archs[EnArchIdx[k]]
@@ -72,6 +88,8 @@ Export ==
                            ELSE <<>>])>>)
 
 TwoPreds == {1, 2}
+NoSame == {FALSE}
+NoIds == {-1}
 ArchIdChoices == {-1, 1}
 CompIdChoices == {-1, 1}
 ThreePredSets == {{}, {1}, {2}}
